@@ -281,3 +281,100 @@ def read_ndjson(text):
             except Exception:
                 pass
     return out
+
+
+# ---------------------------------------------------------------- worker pool (hang / crash isolating)
+
+def run_pool(args, jobs, workers=12, job_timeout=20.0, env=None, total_timeout=7200):
+    """Runs `gvh <args>` worker processes speaking the serve protocol (see harness common::serve).
+    jobs: list of dicts with unique 'id'.  A job during which the worker stops answering for job_timeout seconds
+    gets status 'hang'; a job during which the worker dies gets status 'crash' (with the signal / exit status and
+    the tail of stderr).  Returns {id: result}."""
+    import threading, queue
+    build_harness()
+    e = dict(os.environ)
+    e.setdefault("RUST_MIN_STACK", "268435456")
+    e["RUST_BACKTRACE"] = "0"
+    if env:
+        e.update(env)
+    results = {}
+    lock = threading.Lock()
+    chunks = [jobs[i::workers] for i in range(workers)]
+    deadline = time.time() + total_timeout
+
+    def work(chunk):
+        remaining = list(chunk)
+        while remaining and time.time() < deadline:
+            p = subprocess.Popen([GVH] + list(args), stdin=subprocess.PIPE, stdout=subprocess.PIPE,
+                                 stderr=subprocess.PIPE, text=True, env=e, cwd=VERIF, bufsize=1)
+            errbuf = []
+            def drain():
+                for l in p.stderr:
+                    errbuf.append(l)
+                    if len(errbuf) > 200:
+                        del errbuf[:100]
+            threading.Thread(target=drain, daemon=True).start()
+            def feed(rem=list(remaining)):
+                try:
+                    for j in rem:
+                        p.stdin.write(json.dumps(j) + "\n")
+                    p.stdin.close()
+                except Exception:
+                    pass
+            threading.Thread(target=feed, daemon=True).start()
+            q = queue.Queue()
+            def reader():
+                for l in p.stdout:
+                    q.put(l)
+                q.put(None)
+            threading.Thread(target=reader, daemon=True).start()
+            current = None
+            partial = []
+            done = set()
+            hung = False
+            while True:
+                try:
+                    l = q.get(timeout=job_timeout)
+                except queue.Empty:
+                    hung = True
+                    p.kill()
+                    break
+                if l is None:
+                    break
+                l = l.strip()
+                if not l.startswith("{"):
+                    continue
+                try:
+                    d = json.loads(l)
+                except Exception:
+                    continue
+                if "start" in d and len(d) == 1:
+                    current = d["start"]
+                    partial = []
+                elif "log" in d and len(d) == 1:
+                    partial.append(d["log"])
+                elif "id" in d:
+                    with lock:
+                        results[d["id"]] = d
+                    done.add(d["id"])
+                    current = None
+            p.wait()
+            remaining = [j for j in remaining if j["id"] not in done]
+            if current is not None and current not in done:
+                st = "hang" if hung else "crash"
+                with lock:
+                    results[current] = {"id": current, "status": st, "msg": "%s (exit %s) %s" % (st, p.returncode, "".join(errbuf[-30:])[-1500:]), "log": partial}
+                remaining = [j for j in remaining if j["id"] != current]
+            elif remaining and not done:
+                # worker died before starting anything: tool problem
+                with lock:
+                    for j in remaining:
+                        results[j["id"]] = {"id": j["id"], "status": "toolerror", "msg": "worker exited %s: %s" % (p.returncode, "".join(errbuf[-10:])[-800:]), "log": []}
+                return
+
+    ths = [threading.Thread(target=work, args=(c,)) for c in chunks if c]
+    for t in ths:
+        t.start()
+    for t in ths:
+        t.join()
+    return results
